@@ -980,7 +980,18 @@ func (eng *Engine) specFuncInfo(e *Env, sf *SpecFunc) (*specFuncInfo, error) {
 	if rec {
 		kw = "define-fun-rec"
 	}
-	if len(params) == 0 {
+	if sf.Opaque && len(params) > 0 && !rec {
+		var sorts, names []string
+		for _, p := range params {
+			inner := strings.TrimSuffix(strings.TrimPrefix(p, "("), ")") // "(name sort)"
+			sp := strings.Index(inner, " ")
+			names = append(names, inner[:sp])
+			sorts = append(sorts, strings.TrimSpace(inner[sp+1:]))
+		}
+		app := fmt.Sprintf("(%s %s)", inf.smtName, strings.Join(names, " "))
+		e.sc.emit("(declare-fun %s (%s) %s)", inf.smtName, strings.Join(sorts, " "), e.sortOfS(ret))
+		e.sc.emit("(assert (forall (%s) (! (= %s %s) :pattern (%s))))", strings.Join(params, " "), app, bt.t, app)
+	} else if len(params) == 0 {
 		e.sc.emit("(define-fun %s () %s %s)", inf.smtName, e.sortOfS(ret), bt.t)
 	} else {
 		e.sc.emit("(%s %s (%s) %s %s)", kw, inf.smtName, strings.Join(params, " "), e.sortOfS(ret), bt.t)
